@@ -10,8 +10,8 @@ noncomputable section
 variable {K : Type} [Field K] [LinearOrder K] [IsStrictOrderedRing K] [SqrtPow K]
 open Gen.Dop853
 
-theorem dop853_calls_unfold {n : Nat} (Kc : Nat → Vector K n) (y k1 : Vector K n) (x h : K) :
-    (stages (f := openF Kc) (y := y) (h := h) (k1 := k1) (x := x)).calls
+theorem dop853_calls_unfold {n : Nat} (Kc : Nat → Vector K n) (y k1 : Vector K n) (x h : K) (last : Bool) (xend : K) :
+    (stages (f := openF Kc) (y := y) (h := h) (k1 := k1) (x := x) (last := last) (xend := xend)).calls
       = #[(x + C2 * h, stages_loop1 (y := y) (h := h) (k1 := k1) ),
           (x + C3 * h, stages_loop2 (y := y) (h := h) (k1 := k1) (k2 := Kc 0)),
           (x + C4 * h, stages_loop3 (y := y) (h := h) (k1 := k1) (k3 := Kc 1)),
@@ -22,7 +22,7 @@ theorem dop853_calls_unfold {n : Nat} (Kc : Nat → Vector K n) (y k1 : Vector K
           (x + C9 * h, stages_loop8 (y := y) (h := h) (k1 := k1) (k4 := Kc 2) (k5 := Kc 3) (k6 := Kc 4) (k7 := Kc 5) (k8 := Kc 6)),
           (x + C10 * h, stages_loop9 (y := y) (h := h) (k1 := k1) (k4 := Kc 2) (k5 := Kc 3) (k6 := Kc 4) (k7 := Kc 5) (k8 := Kc 6) (k9 := Kc 7)),
           (x + C11 * h, stages_loop10 (y := y) (h := h) (k1 := k1) (k4 := Kc 2) (k5 := Kc 3) (k6 := Kc 4) (k7 := Kc 5) (k8 := Kc 6) (k9 := Kc 7) (k10 := Kc 8)),
-          (x + h, stages_loop11 (y := y) (h := h) (k1 := k1) (k4 := Kc 2) (k5 := Kc 3) (k6 := Kc 4) (k7 := Kc 5) (k8 := Kc 6) (k9 := Kc 7) (k10 := Kc 8) (k2 := Kc 9))] := by
+          ((if last then xend else x + h), stages_loop11 (y := y) (h := h) (k1 := k1) (k4 := Kc 2) (k5 := Kc 3) (k6 := Kc 4) (k7 := Kc 5) (k8 := Kc 6) (k9 := Kc 7) (k10 := Kc 8) (k2 := Kc 9))] := by
   rfl
 
 theorem dop853_row1 {n : Nat} (Kc : Nat → Vector K n) (y k1 : Vector K n) (x h : K) :
@@ -81,16 +81,18 @@ theorem dop853_row11 {n : Nat} (Kc : Nat → Vector K n) (y k1 : Vector K n) (x 
   stage_finish
 
 /-- the eleven trial-stage calls of DOP853 are the stages 2..12 of the explicit RK scheme `dop853Tab` -/
-theorem dop853_stage_eqs {n : Nat} (Kc : Nat → Vector K n) (y k1 : Vector K n) (x h : K) :
-    (stages (f := openF Kc) (y := y) (h := h) (k1 := k1) (x := x)).calls
+theorem dop853_stage_eqs {n : Nat} (Kc : Nat → Vector K n) (y k1 : Vector K n) (x h : K) (last : Bool) (xend : K)
+    (hl : last = true → xend = x + h) :
+    (stages (f := openF Kc) (y := y) (h := h) (k1 := k1) (x := x) (last := last) (xend := xend)).calls
       = #[rkArg dop853Tab x h y (kOf k1 Kc) 1, rkArg dop853Tab x h y (kOf k1 Kc) 2, rkArg dop853Tab x h y (kOf k1 Kc) 3, rkArg dop853Tab x h y (kOf k1 Kc) 4, rkArg dop853Tab x h y (kOf k1 Kc) 5, rkArg dop853Tab x h y (kOf k1 Kc) 6, rkArg dop853Tab x h y (kOf k1 Kc) 7, rkArg dop853Tab x h y (kOf k1 Kc) 8, rkArg dop853Tab x h y (kOf k1 Kc) 9, rkArg dop853Tab x h y (kOf k1 Kc) 10, rkArg dop853Tab x h y (kOf k1 Kc) 11] := by
-  rw [dop853_calls_unfold, dop853_row1, dop853_row2, dop853_row3, dop853_row4, dop853_row5, dop853_row6, dop853_row7, dop853_row8, dop853_row9, dop853_row10, dop853_row11]
+  have hx : (if last = true then xend else x + h) = x + h := by cases last <;> simp_all
+  rw [dop853_calls_unfold, hx, dop853_row1, dop853_row2, dop853_row3, dop853_row4, dop853_row5, dop853_row6, dop853_row7, dop853_row8, dop853_row9, dop853_row10, dop853_row11]
 
 /-- where the returned values end up: k2, k3 are reused for stages 11 and 12 -/
-theorem dop853_stage_buffers {n : Nat} (Kc : Nat → Vector K n) (y k1 : Vector K n) (x h : K) :
-    let o := stages (f := openF Kc) (y := y) (h := h) (k1 := k1) (x := x)
+theorem dop853_stage_buffers {n : Nat} (Kc : Nat → Vector K n) (y k1 : Vector K n) (x h : K) (last : Bool) (xend : K) :
+    let o := stages (f := openF Kc) (y := y) (h := h) (k1 := k1) (x := x) (last := last) (xend := xend)
     o.k4 = Kc 2 ∧ o.k5 = Kc 3 ∧ o.k6 = Kc 4 ∧ o.k7 = Kc 5 ∧ o.k8 = Kc 6 ∧ o.k9 = Kc 7 ∧ o.k10 = Kc 8
-      ∧ o.k2 = Kc 9 ∧ o.k3 = Kc 10 ∧ o.xph = x + h := by
+      ∧ o.k2 = Kc 9 ∧ o.k3 = Kc 10 ∧ o.xph = (if last then xend else x + h) := by
   refine ⟨rfl, rfl, rfl, rfl, rfl, rfl, rfl, rfl, rfl, rfl⟩
 
 /-- the propagated state `k5 = y + h·k4`, `k4 = Σ b_l K_l` -/
